@@ -17,8 +17,12 @@ EXPLANATION = (
     "field with a same-named source field derives from it; (R20.2) for enum mirrors the composition "
     "source variant -> mirror variant -> source variant is the identity, panicking 'not supported for caching' "
     "arms are an enumerated set, and no catch-all arm swallows a source variant; (R20.3) every *Cached type has "
-    "both directions; (R20.4) cached lowerings are consulted only for crates that have a cache file. That the "
-    "id lookup tables are consistent across sections and that the blob matches the settings is not decided.")
+    "both directions; (R20.4) cached lowerings are consulted only for crates that have a cache file; (R20.5) the "
+    "interning tables of the saving contexts store a payload computed from the key alone; (R20.6) the validity test of a "
+    "crate cache compares every field of the recorded metadata with the freshly computed one and refuses on a mismatch; "
+    "(R20.7) no routine of the cache modules re-orders or de-duplicates a sequence or collects it into a container with "
+    "an order of its own. That the id lookup tables are consistent across sections and that the recorded metadata is "
+    "sufficient is not decided.")
 ASSUMPTIONS = ["mirror fields are matched to source fields by name (the convention of the three cache modules); fields without a same-named counterpart are only required to derive from the other side",
                "serde derives on the mirror types are symmetric by construction"]
 EXHAUSTIVE = True
@@ -267,8 +271,6 @@ def run(ctx):
     ctx.floor("field flows checked", n_fields, 250)
     ctx.floor("variant flows checked", n_variants, 80)
     ctx.notes.append("enum mirrors whose shape is not analysed: %s" % unsupported)
-    for k in sorted(set(exc) - used_exc):
-        ctx.ob("R20.x", "stale-exception:" + k, False, "exception table row no longer matches anything", EXC)
 
     # ---------------- R20.4 gates
     LOW = "cairo_lang_lowering::"
@@ -308,6 +310,9 @@ def run(ctx):
     ctx.ob("R20.4", "priv_function_with_body_multi_lowering:cache-before-source", ok, msg, pml.where())
     _interning_tables(ctx, F)
     _cache_validity(ctx, F)
+    _order_preserved(ctx, F, cached, methods, exc, used_exc)
+    for k in sorted(set(exc) - used_exc):
+        ctx.ob("R20.x", "stale-exception:" + k, False, "exception table row no longer matches anything", EXC)
     _controls(ctx, F, cached, methods)
 
 
@@ -414,6 +419,73 @@ def _interning_tables(ctx, F):
                ("the entry interned under the key is built from %s, which is not the key: every later value with the same key silently gets the payload "
                 "of the first one" % ", ".join(sorted(set(bad))) if bad else "no parameter flows into the key of the table"), f.where())
     ctx.floor("interning routines of the cache saving contexts", n, 20)
+
+
+REORDER = re.compile(r"^(sort(ed)?(_unstable)?(_by)?(_key|_cached_key)?|reverse|rev|dedup(_by|_by_key)?|swap|swap_remove|swap_remove_\w+|"
+                     r"rotate_left|rotate_right|select_nth_unstable\w*|unique(_by)?|shuffle|partition\w*|sort_keys|sort_by_keys)$")
+UNORDERED_TARGET = re.compile(r"(BTreeMap|BTreeSet|std::collections::hash::(map::HashMap|set::HashSet)|hashbrown::|UnorderedHash(Map|Set))")
+
+
+def reorder_calls(fns):
+    """Calls in `fns` that change the order (or the multiplicity) of the elements of a sequence: the slice / Vec / iterator
+    re-ordering operations, and collecting into a container that has an order of its own."""
+    out = []
+    for f in fns:
+        for c in f.calls():
+            if c.macros and any(m in ("derive", "Debug") for m in c.macros):
+                continue
+            nm = c.name()
+            if REORDER.match(nm):
+                out.append((f, c, nm))
+            elif nm in ("collect", "from_iter", "extend") and any(UNORDERED_TARGET.search(str(g)) for g in c.gargs):
+                out.append((f, c, nm + " into " + UNORDERED_TARGET.search(" ".join(map(str, c.gargs))).group(1)))
+    return out
+
+
+def _order_preserved(ctx, F, cached, methods, exc, used_exc):
+    """R20.7: the sequences of a cached crate come back in the order they had.  Order is semantic in what the caches hold
+    (statements, block ids, match arms, and - seed C20-5 - the remapping of a Goto, whose iteration order is the order of the
+    store_temps before a join), and nothing in a mirror type says which of its sequences could be re-ordered harmlessly; so
+    neither direction of a mirror, nor any other routine of the cache modules, may apply an operation that re-orders or
+    de-duplicates a sequence or collects it into a container with an order of its own.  One obligation per mirror pair
+    (both directions, closures included), one for the remaining routines of each cache module."""
+    n_pairs = 0
+    seen = set()
+    for p in sorted(cached):
+        ms = methods.get(p, {})
+        short = p.split("::")[0].replace("cairo_lang_", "") + "::" + p.rsplit("::", 1)[1]
+        fns = []
+        for f in ms.values():
+            fns += fn_group(F, f)
+        if not fns:
+            continue
+        seen.update(f.path for f in fns)
+        n_pairs += 1
+        hits = reorder_calls(fns)
+        key = "order:" + short
+        ok = not hits
+        msg = "no re-ordering operation in %s" % sorted(ms) if ok else "; ".join(
+            "%s calls `%s` (%s)" % (last_seg(f.root), what, c.where()) for f, c, what in hits)
+        if not ok and key in exc:
+            used_exc.add(key)
+            ok = True
+            msg += " [exception: %s]" % exc[key]
+        ctx.ob("R20.7", key, ok, msg, hits[0][1].where() if hits else fns[0].where())
+    ctx.floor("mirror pairs checked for order preservation", n_pairs, 100)
+    rest = defaultdict(list)
+    for f in F.fns.values():
+        if "::cache::" in f.path and f.path not in seen and not f.d.get("trait", "").startswith(("core::fmt", "serde::")):
+            rest[f.path.split("::")[0]].append(f)
+    for crate, fns in sorted(rest.items()):
+        hits = reorder_calls(fns)
+        key = "order:%s::cache:other-routines" % crate.replace("cairo_lang_", "")
+        ok = not hits
+        msg = "%d routines, no re-ordering operation" % len(fns) if ok else "; ".join(
+            "%s calls `%s` (%s)" % (fn_key(f.path), what, c.where()) for f, c, what in hits)
+        if not ok and key in exc:
+            used_exc.add(key)
+            ok = True
+        ctx.ob("R20.7", key, ok, msg, hits[0][1].where() if hits else "")
 
 
 def _controls(ctx, F, cached, methods):
